@@ -120,6 +120,10 @@ impl WalletSeed {
 			i += 1;
 		}
 		path.push(backup_seed_file_name.clone());
+		#[cfg(grin_wallet_verif)]
+		if grin_wallet_util::verif::point("seed_rename_bak") {
+			return Err(Error::IO);
+		}
 		if fs::rename(seed_file_name, backup_seed_file_name.as_str()).is_err() {
 			return Err(Error::GenericError("Can't rename wallet seed file".to_owned()).into());
 		}
@@ -149,7 +153,15 @@ impl WalletSeed {
 		let seed = WalletSeed::from_mnemonic(word_list)?;
 		let enc_seed = EncryptedWalletSeed::from_seed(&seed, password)?;
 		let enc_seed_json = serde_json::to_string_pretty(&enc_seed).map_err(|_| Error::Format)?;
+		#[cfg(grin_wallet_verif)]
+		if grin_wallet_util::verif::point("seed_create") {
+			return Err(Error::IO);
+		}
 		let mut file = File::create(seed_file_path).map_err(|_| Error::IO)?;
+		#[cfg(grin_wallet_verif)]
+		if grin_wallet_util::verif::point("seed_write") {
+			return Err(Error::IO);
+		}
 		file.write_all(&enc_seed_json.as_bytes())
 			.map_err(|_| Error::IO)?;
 		warn!("Seed created from word list");
@@ -183,7 +195,15 @@ impl WalletSeed {
 
 		let enc_seed = EncryptedWalletSeed::from_seed(&seed, password)?;
 		let enc_seed_json = serde_json::to_string_pretty(&enc_seed).map_err(|_| Error::Format)?;
+		#[cfg(grin_wallet_verif)]
+		if grin_wallet_util::verif::point("seed_create") {
+			return Err(Error::IO);
+		}
 		let mut file = File::create(seed_file_path).map_err(|_| Error::IO)?;
+		#[cfg(grin_wallet_verif)]
+		if grin_wallet_util::verif::point("seed_write") {
+			return Err(Error::IO);
+		}
 		file.write_all(&enc_seed_json.as_bytes())
 			.map_err(|_| Error::IO)?;
 		Ok(seed)
@@ -222,6 +242,10 @@ impl WalletSeed {
 		let seed_file_path = &format!("{}{}{}", data_file_dir, MAIN_SEPARATOR, SEED_FILE,);
 		if Path::new(seed_file_path).exists() {
 			debug!("Deleting wallet seed file at: {}", seed_file_path);
+			#[cfg(grin_wallet_verif)]
+			if grin_wallet_util::verif::point("seed_delete") {
+				return Err(Error::IO);
+			}
 			fs::remove_file(seed_file_path).map_err(|_| Error::IO)?;
 		}
 		Ok(())
